@@ -638,9 +638,9 @@ def _stale(b):
         pending = {}
         for c in b.conses:
             p = pending.get(c["lvl"], [])
-            c.setdefault("stale", {})[ext] = list(p)
+            c.setdefault("stale", {})[ext] = [list(r) for r in p]
             contrib = c.get("split_obs") or c["run"]
             if contrib and not yields(c, ext):
-                pending[c["lvl"]] = p + contrib
+                pending[c["lvl"]] = p + [list(contrib)]
             else:
                 pending[c["lvl"]] = []
